@@ -20,7 +20,7 @@ for sid in ids:
     props=extra.get(sid,[meta["breaks_property"]])
     r=sh(f"git -C {R} checkout -q -- . && git -C {R} apply {V}/seeded/{sid}/patch.diff")
     if r.returncode!=0:
-        rows.append((sid,props[0],"patch does not apply: "+r.stdout.strip()[:100])); continue
+        rows.append((sid,props[0],"patch does not apply: "+r.stdout.strip()[:100])); print(rows[-1],flush=True); continue
     det=[]
     for p in props:
         if not any(p==k for k in json.load(open(f"{C}/obligations.json"))):
